@@ -32,3 +32,48 @@ Lemma example3 :
     /\ run_ref FlW 5 [VInt 3; VList [VInt 1; VInt 2]] p = XOk s
     /\ out s = text [[10216; 32; 10216; 32; 55; 32; 124; 32; 56; 32; 10217; 32; 10217]]%N.
 Proof. eexists. eexists. split; [vm_compute; reflexivity|]. vm_compute. repeat split; reflexivity. Qed.
+
+(* ---- early exits -------------------------------------------------------------------------------------- *)
+(* 5 λ:[:‹x*|_1];†   factorial by recursion (x) with a base case: prints 120 *)
+Definition ex_src_fact : str := [53; 32; 955; 58; 91; 58; 8249; 120; 42; 124; 95; 49; 93; 59; 8224]%N.
+(* 5(n3=[X]n,)   the loop breaks at the third item: prints 1, 2 *)
+Definition ex_src_break : str := [53; 40; 110; 51; 61; 91; 88; 93; 110; 44; 41]%N.
+(* 4(n λ:2>[:3>[X|d]|N];†,)   early return from nested ifs in a lambda called from a loop; 5(n3=[x]n,) continue *)
+Definition ex_src_ret : str := [52; 40; 110; 32; 955; 58; 50; 62; 91; 58; 51; 62; 91; 88; 124; 100; 93; 124; 78; 93; 59; 8224; 44; 41]%N.
+Definition ex_src_cont : str := [53; 40; 110; 51; 61; 91; 120; 93; 110; 44; 41]%N.
+
+Lemma example_fact :
+  exists p s, parse_source ex_src_fact = Ok p /\ core_program p = true
+    /\ run_machine FlNone 40 [] p = XOk s /\ run_ref FlNone 40 [] p = XOk s
+    /\ stk s = [] /\ out s = text [[49; 50; 48]]%N.
+Proof. eexists. eexists. split; [vm_compute; reflexivity|]. vm_compute. repeat split; reflexivity. Qed.
+
+Lemma example_break :
+  exists p s, parse_source ex_src_break = Ok p /\ core_program p = true
+    /\ run_machine FlNone 12 [] p = XOk s /\ run_ref FlNone 12 [] p = XOk s
+    /\ stk s = [] /\ out s = text [[49]; [50]]%N.
+Proof. eexists. eexists. split; [vm_compute; reflexivity|]. vm_compute. repeat split; reflexivity. Qed.
+
+Lemma example_return_continue :
+  (exists p s, parse_source ex_src_ret = Ok p /\ core_program p = true
+    /\ run_machine FlNone 12 [] p = XOk s /\ run_ref FlNone 12 [] p = XOk s
+    /\ out s = text [[45; 49]; [45; 50]; [54]; [52]]%N)
+  /\ (exists p s, parse_source ex_src_cont = Ok p /\ core_program p = true
+    /\ run_machine FlNone 12 [] p = XOk s /\ run_ref FlNone 12 [] p = XOk s
+    /\ out s = text [[49]; [50]; [52]; [53]]%N).
+Proof.
+  split; (eexists; eexists; split; [vm_compute; reflexivity|]; vm_compute; repeat split; reflexivity).
+Qed.
+
+(* the decidable guard: what stays outside the core because the emitted line is not what the documents say
+   {X|1}  X in a while CONDITION (known finding C02-exit-in-while-condition: SyntaxError);
+   3ƛ5X9;  X in a map lambda and  @f:1|5X9;  X in a named function (emitted: pass);
+   1{x}  x in a while body (continue re-tests the stale condition);  @f:1|x;  x in a named function (prints) *)
+Definition core_of (src : str) : option bool :=
+  match parse_source src with Ok p => Some (core_program p) | _ => None end.
+Lemma guard_examples :
+  core_of [123; 88; 124; 49; 125]%N = Some false /\ core_of [51; 411; 53; 88; 57; 59]%N = Some false
+  /\ core_of [64; 102; 58; 49; 124; 53; 88; 57; 59]%N = Some false /\ core_of [49; 123; 120; 125]%N = Some false
+  /\ core_of [64; 102; 58; 49; 124; 120; 59]%N = Some false /\ core_of [51; 40; 118; 43; 88; 41]%N = Some false
+  /\ core_of [51; 40; 110; 50; 61; 91; 88; 93; 41]%N = Some true /\ core_of [955; 118; 120; 59]%N = Some true /\ core_of [955; 118; 43; 120; 59]%N = Some false.
+Proof. vm_compute. repeat split; reflexivity. Qed.
